@@ -26,6 +26,7 @@ MODULES = {
             "ctl": {"module": "MC_Midi", "cfg": "Graph_Midi_ctl.cfg"},
         },
     },
+    "adsr": {"trace_spec": "Trace_Adsr", "trace_cfg": "Trace_Adsr.cfg", "graphs": {}},
     "lfo": {"trace_spec": "Trace_Lfo", "trace_cfg": "Trace_Lfo.cfg", "graphs": {}},
 }
 
@@ -79,6 +80,15 @@ PROPS.update({
     },
     "C11": {"module": "lfo", "mc": _LFO_MC, "traces": [("lfo", "freq", QT), ("lfo", "shapes", QT)]},
     "C12": {"module": "lfo", "mc": _LFO_MC, "traces": [("lfo", "shapes", QT), _LFO_SWEEP]},
+})
+
+_ADSR_MC = [("adsr", "MC_Adsr", "MC_Adsr.cfg", QT), ("adsr-live", "MC_Adsr", "MC_Adsr_live.cfg", QT)]
+_ADSR_TR = [("adsr", "random", QT), ("adsr", "durations", QT), ("adsr", "cells", QT)]
+PROPS.update({
+    "C01": {"module": "adsr", "mc": _ADSR_MC, "traces": _ADSR_TR,
+            "rule": "distinct (phase, table cell) pairs (of 3 x 1024 + 2) in which a logged tick landed"},
+    "C02": {"module": "adsr", "mc": _ADSR_MC, "traces": _ADSR_TR},
+    "C03": {"module": "adsr", "mc": _ADSR_MC, "traces": _ADSR_TR},
 })
 
 HOOK_COMMITS = ["36838b7"]
